@@ -101,7 +101,7 @@ let run_ws (c : case) : string =
                  | Some j -> Some (String.sub x 0 j, int_of_string (String.sub x (j+1) (String.length x - j - 1))) | None -> None)
                  (String.split_on_char ',' (String.sub a 2 (String.length a - 2)))) with Not_found -> 0)
           | _ -> 0) in
-        let strict = (cfg = 0 || cfg = List.length want) && i = 0 in
+        let strict = (i > 0) || cfg = 0 || cfg = List.length want in
         let v = spec_verdict Decoded strict frame want in
         if v <> "ok" then o := Printf.sprintf " oracle_spec=%s(epoch%d)" v i;
         let vs = spec_verdict Stored strict frame want in
@@ -245,3 +245,39 @@ let run_pipe (c : case) : string =
   if unknown then "oracle_trace=fail:event-on-an-unknown-channel"
   else if trace_ok (nat_of_int nj) evs then "oracle_trace=ok"
   else "oracle_trace=fail:recorded-trace-is-not-a-run-of-the-pipeline-model"
+
+(* ---- the lz4c command (C20) ---- *)
+let run_lz4c (c : case) : string =
+  let toks = List.filter (fun x -> x <> "") (String.split_on_char '_' (get c "flags")) in
+  let size = ref 4194304 and bc = ref false and sc = ref false and lvl = ref 0 and conc = ref (-1) in
+  let rec go = function
+    | "-size" :: v :: r -> size := (match v with "64K" -> 65536 | "256K" -> 262144 | "1M" -> 1048576 | _ -> 4194304); go r
+    | "-bc" :: r -> bc := true; go r
+    | "-sc" :: r -> sc := true; go r
+    | "-l" :: v :: r -> lvl := int_of_string v; go r
+    | "-c" :: v :: r -> conc := int_of_string v; go r
+    | _ :: r -> go r
+    | [] -> () in
+  go toks;
+  let fl = { f_size = z_of_int !size; f_bc = !bc; f_sc = !sc; f_level = z_of_int !lvl; f_conc = z_of_int !conc } in
+  let d1 = parse_data (get c "data") in
+  let d2 = get c "data2" in
+  let files = d1 :: (if d2 = "-" then [] else [parse_data d2]) in
+  let r = if get c "stdio" = "1" then cmd_compress_stdio fl d1 else cmd_compress fl files in
+  let m = (match r with
+    | CmdOk outs -> "lz4=" ^ String.concat "," (List.map hex_of_bytes outs)
+    | CmdErr (outs, e) -> "lz4=" ^ String.concat "," (List.map hex_of_bytes outs @ ["MISSING"]) ^ " x_err=" ^ cls e) in
+  (* the IMPLEMENTATION's .lz4 files must be frames of the strict specification holding the file *)
+  let o = (match get_opt c "ilz4" with
+    | Some h when h <> "" ->
+      let zs = String.split_on_char ',' h in
+      (try
+        let bad = ref "" in
+        List.iteri (fun i z -> if z <> "MISSING" then begin
+          let want = List.nth files i in
+          let v = spec_verdict Decoded true (bytes_of_hex z) want in
+          if v <> "ok" then bad := Printf.sprintf "%s(file%d)" v i end) zs;
+        if !bad = "" then " oracle_spec=ok" else " oracle_spec=" ^ !bad
+      with _ -> "")
+    | _ -> "") in
+  m ^ o
